@@ -61,11 +61,12 @@ type world struct {
 	// bookkeeping that a revert must also restore (not content):
 	touched    map[int]bool // a state-changing operation on the address is in effect in this finalise period
 	touchCount map[int]int  // zero-value credits of an empty account in effect in this finalise period
+	cleanTouch map[int]int  // ... of those, the ones that hit an account no setter had been called on before
 	recreated  map[int]bool // the account was created over an existing/destroyed predecessor in this lifetime
 }
 
 func newWorld() *world {
-	return &world{acc: map[int]*macct{}, touched: map[int]bool{}, touchCount: map[int]int{}, recreated: map[int]bool{}}
+	return &world{acc: map[int]*macct{}, touched: map[int]bool{}, touchCount: map[int]int{}, cleanTouch: map[int]int{}, recreated: map[int]bool{}}
 }
 
 func (w *world) clone() *world {
@@ -80,6 +81,9 @@ func (w *world) clone() *world {
 	}
 	for a, v := range w.touchCount {
 		n.touchCount[a] = v
+	}
+	for a, v := range w.cleanTouch {
+		n.cleanTouch[a] = v
 	}
 	for a, v := range w.recreated {
 		n.recreated[a] = v
@@ -110,31 +114,50 @@ type model struct {
 	// an operation in effect in the current period is the only place where the
 	// property text does not fix whether Finalise(true) removes it.
 	maybeDirty map[int]bool
-	// revTouch: a zero-value credit of the (empty) account was reverted earlier in
-	// this state object's lifetime. Used only to label causes.
-	revTouch map[int]bool
-	// revTouchPeriod: ... and that happened in the current finalise period.
+	// poison: the cached object of the address currently can no longer mark itself
+	// dirty (observed through the read-only hook after each operation: cached, not
+	// dirty, dirty callback consumed). poisonSticky: that was so when this state was
+	// taken by Copy from its parent. Both are used only to label causes.
+	poison       map[int]bool
+	poisonSticky map[int]bool
+	// rewritten: the object of the address had been removed as empty by a
+	// Finalise(true) and was still in the dirty set when a Finalise/Commit without
+	// the deletion flag ran (observed through the hook). Label only.
+	rewritten map[int]bool
+	// revTouchPeriod / revTouchLife: the reverted credit hit an account no setter
+	// had been called on before (the situation of hypothesis F5), in the current
+	// finalise period / in this object's lifetime. Used for the observation gate.
 	revTouchPeriod map[int]bool
+	revTouchLife   map[int]bool
 	curTx          int
 }
 
 func newModel() *model {
-	return &model{w: newWorld(), maybeDirty: map[int]bool{}, revTouch: map[int]bool{}, revTouchPeriod: map[int]bool{}, curTx: -1}
+	return &model{w: newWorld(), maybeDirty: map[int]bool{}, poison: map[int]bool{}, poisonSticky: map[int]bool{}, rewritten: map[int]bool{}, revTouchPeriod: map[int]bool{}, revTouchLife: map[int]bool{}, curTx: -1}
 }
 
 func (m *model) clone() *model {
-	n := &model{w: m.w.clone(), maybeDirty: map[int]bool{}, revTouch: map[int]bool{}, revTouchPeriod: map[int]bool{}, curTx: m.curTx}
+	n := &model{w: m.w.clone(), maybeDirty: map[int]bool{}, poison: map[int]bool{}, poisonSticky: map[int]bool{}, rewritten: map[int]bool{}, revTouchPeriod: map[int]bool{}, revTouchLife: map[int]bool{}, curTx: m.curTx}
 	for _, s := range m.snaps {
 		n.snaps = append(n.snaps, s.clone())
 	}
 	for a, v := range m.maybeDirty {
 		n.maybeDirty[a] = v
 	}
-	for a, v := range m.revTouch {
-		n.revTouch[a] = v
+	for a, v := range m.poison {
+		n.poison[a] = v
+	}
+	for a, v := range m.poisonSticky {
+		n.poisonSticky[a] = v
+	}
+	for a, v := range m.rewritten {
+		n.rewritten[a] = v
 	}
 	for a, v := range m.revTouchPeriod {
 		n.revTouchPeriod[a] = v
+	}
+	for a, v := range m.revTouchLife {
+		n.revTouchLife[a] = v
 	}
 	return n
 }
@@ -173,7 +196,7 @@ type events struct {
 func (m *model) noteWrite(a int, ev *events) {
 	if m.revTouchPeriod[a] {
 		ev.wroteAfterRevTouchSamePeriod = true
-	} else if m.revTouch[a] {
+	} else if m.revTouchLife[a] {
 		ev.wroteAfterRevTouchLater = true
 	}
 }
@@ -195,6 +218,7 @@ func (m *model) apply(o *op, cs *caseInput, adopt func(a int) bool) events {
 		m.mark(o.A)
 	case "addbal", "touch":
 		_, existed := w.acc[o.A]
+		wasDirty := m.maybeDirty[o.A]
 		x := m.getOrNew(o.A)
 		m.maybeDirty[o.A] = true
 		v := o.big()
@@ -205,6 +229,9 @@ func (m *model) apply(o *op, cs *caseInput, adopt func(a int) bool) events {
 				}
 				w.touched[o.A] = true
 				w.touchCount[o.A]++
+				if existed && !wasDirty {
+					w.cleanTouch[o.A]++
+				}
 			}
 			break
 		}
@@ -277,6 +304,10 @@ func (m *model) apply(o *op, cs *caseInput, adopt func(a int) bool) events {
 	case "preimage":
 	case "prepare":
 		m.curTx = o.N
+	case "copy":
+		if o.N == 1 {
+			m.snaps = nil // the case continues on the copy, which has no undo log
+		}
 	case "snap":
 		m.snaps = append(m.snaps, w.clone())
 	case "revert":
@@ -286,10 +317,10 @@ func (m *model) apply(o *op, cs *caseInput, adopt func(a int) bool) events {
 		m.w = m.snaps[o.N]
 		m.snaps = m.snaps[:o.N]
 		ev.revertChanged = !old.sameContent(m.w)
-		for a, n := range old.touchCount {
-			if n > m.w.touchCount[a] {
-				m.revTouch[a] = true
+		for a, n := range old.cleanTouch {
+			if n > m.w.cleanTouch[a] {
 				m.revTouchPeriod[a] = true
+				m.revTouchLife[a] = true
 			}
 		}
 		for a, x := range old.acc {
@@ -335,16 +366,31 @@ func (m *model) finalise(del bool, adopt func(a int) bool, ev *events) {
 	}
 	w.touched = map[int]bool{}
 	w.touchCount = map[int]int{}
+	w.cleanTouch = map[int]int{}
 	m.revTouchPeriod = map[int]bool{}
 	w.refund = 0
 	m.snaps = nil
 }
 
-// reopened resets what belongs to one state object's lifetime.
+// clearLabels forgets the cause labels of the previous state object.
+func (m *model) clearLabels() {
+	m.poison = map[int]bool{}
+	m.poisonSticky = map[int]bool{}
+	m.rewritten = map[int]bool{}
+}
+
+// reopened resets what belongs to one state object's lifetime (the cause labels
+// are kept until the reopened state has been compared: see clearLabels).
 func (m *model) reopened(keepLogs bool) {
 	m.maybeDirty = map[int]bool{}
-	m.revTouch = map[int]bool{}
+	for a, v := range m.poison {
+		if v {
+			m.poisonSticky[a] = true
+		}
+	}
+	m.poison = map[int]bool{}
 	m.revTouchPeriod = map[int]bool{}
+	m.revTouchLife = map[int]bool{}
 	m.w.recreated = map[int]bool{}
 	m.snaps = nil
 	if !keepLogs {
